@@ -273,3 +273,48 @@ PLAN["C10"] = {
     ],
     "scope_note": "Kani: complete per size N = 0..12; symbolic indices for N <= 8.",
 }
+
+
+_CANON_FUNCS = ["canonization::" + f for f in ["p_canonization_ind", "n_canonization_ind", "npn_canonization_ind", "p_canonization_res", "n_canonization_res",
+                "npn_canonization_res", "p_canonization", "n_canonization", "npn_canonization", "FLIPS", "SWAPS", "generate_swaps (n = 7, 8, ground)", "generate_gray_flips (n = 7, 8, ground)"]]
+_CANON_ASSUMED = _VERUS_ASSUMED + [
+    "assumed in the canon unit, discharged elsewhere: contracts of swap_adjacent_inplace / flip_inplace / not_inplace (Verus unit `kernels`, same run), cmp == lex_lt (Kani triples c08*_k_cmp per length, C08)",
+    "ground lemmas ground_seq_facts / ground_{p,n,npn}_closed are external_body in Verus and are decided by the ground evaluator on the constants of the current tree for n = 0..8 (obligations G:g04q_*); the evaluator is a transcription of the spec functions p_pi/n_pi/npn_pi/perm_at/n_mask/npn_mask (trusted transcription)",
+    "generate_swaps / generate_gray_flips are not verified as code: their outputs for n = 7, 8 are ground-evaluated; canonization for n >= 9 is outside the property's range and not covered (dispatchers require n <= 8)",
+    "paper step (DESIGN 5, C04.6): the walk visits every group element (G:g04*_cover) and each table is determined by its bits (lemma_ext, machine-checked), hence {walk(k)} is the orbit of the input and the running minimum (machine-checked) is the orbit minimum; idempotence and 'same representative iff equivalent' follow from the orbit minimum being a class invariant",
+    "assume_specification of <[T]>::clone_from_slice and Ordering::is_lt (one-line std contracts)",
+]
+
+PLAN["C04"] = {
+    "level": "proof",
+    "technique": "Verus contracts on the real canonization loops, decoders and dispatchers extracted from src/canonization.rs (generic in the flip/swap sequences: table == walk spec, running minimum in the library order, no panic/overflow) + machine-checked composition lemmas (walk(k) reads the input through pi(k,.), closure => walk(L) == input) + exhaustive ground evaluation of the real FLIPS/SWAPS tables and generators for n <= 8 (ranges, lengths, closure, coverage of the whole group) + Kani end-to-end cross-check at n <= 2 against an orbit enumerated by the harness",
+    "level_text": "For every n <= 8 and every well-formed table, Verus proves that p/n/npn_canonization terminate without panic or overflow and return a table that is (a) one of the tables of the walk defined by the group actions swap_adjacent/flip/not applied along the real sequences and (b) not above any table of that walk in the library's order; the sequences themselves (hard-coded for n <= 6, generated for n = 7, 8) are shown by exhaustive ground evaluation to have entries in range, the right lengths, to be closed and to reach every element of the permutation / complementation / combined group exactly once. The orbit-minimum conclusion combines these by a short paper step; it is cross-checked end to end by Kani for every function of n <= 2 variables (3 in thorough) on both types.",
+    "level_note": "Trusted: Verus/Z3/vstd, rustc, extraction rules, the ground evaluator's transcription of the spec functions. The last composition step (orbit = set of visited tables) is on paper. n >= 9 is not covered.",
+    "verus_units": ["canon"],
+    "kani_units": ["spec_ops.rs", "c04_e2e.rs"],
+    "kani_filters": {"quick": ["c04q_"], "thorough": ["c04t_"]},
+    "kani_scope": {r".*": "bounded(every function of this tiny n only: end-to-end cross-check of the composition step)"},
+    "harness_timeout": {"quick": 900, "thorough": 7200},
+    "ground": {"units": ["g04_canon.rs"], "quick": ["g04q_"], "thorough": ["g04t_"]},
+    "searcher": {"units": ["s04_canon.rs"], "default": "s04_", "timeout": 1800},
+    "functions": _CANON_FUNCS,
+    "assumptions": _CANON_ASSUMED,
+    "scope_note": "Verus: unbounded in the sequences and the table contents, n <= 8 in the dispatchers. Ground: exhaustive on the real sequences n = 0..8 (NPN coverage n = 7, 8 in thorough). Kani: every function of n <= 2 (3 thorough).",
+}
+
+PLAN["C05"] = {
+    "level": "proof",
+    "technique": "Verus contracts on the real canonization loops (index link: the returned step index names the step at which the representative was seen, including the already-canonical case via the closed-walk lemma), decoders (result == perm_at / mask spec of the sequences at that step) and dispatchers + exhaustive ground evaluation, for the real sequences n <= 8 and EVERY step, that the decoded (perm, mask) denotes exactly the composed map of that step under the property's formula + Kani end-to-end certificate check at n <= 2",
+    "level_text": "For every n <= 8 and every well-formed table, Verus proves that the representative returned is the table of a step s of the walk and that the returned permutation / mask are the decoder specifications perm_at / n_mask / npn_mask evaluated at that same step (also when the input is already canonical: the closed-walk lemma identifies the last step with the input); perm is a permutation of 0..n and mask < 2^(n+1) by the ground facts. Exhaustive ground evaluation shows, for every step of every real sequence (n <= 8; NPN n = 8 in thorough) and every assignment y, that x[perm[i]] = y[i] xor mask[i] is the composed index map of that step and mask[n] its output polarity - the property's formula. Kani cross-checks the certificate end to end for every function of n <= 2 (3 thorough).",
+    "level_note": "Trusted as for C04. The identification 'table of step s == input acted on by the composed map of step s' is machine-checked (lemma_*_walk_pi); combining it with the ground certificate facts is a one-line paper step.",
+    "verus_units": ["canon"],
+    "kani_units": ["spec_ops.rs", "c04_e2e.rs"],
+    "kani_filters": {"quick": ["c04q_"], "thorough": ["c04t_"]},
+    "kani_scope": {r".*": "bounded(every function of this tiny n only: end-to-end certificate check)"},
+    "harness_timeout": {"quick": 900, "thorough": 7200},
+    "ground": {"units": ["g04_canon.rs"], "quick": ["g04q_seq", "g04q_p_closed", "g04q_n_closed", "g04q_npn_closed", "g05q_"], "thorough": ["g05t_"]},
+    "searcher": {"units": ["s04_canon.rs"], "default": "s04_", "timeout": 1800},
+    "functions": _CANON_FUNCS,
+    "assumptions": _CANON_ASSUMED,
+    "scope_note": "Verus: unbounded in the sequences and table contents, n <= 8. Ground: every step of the real sequences n = 0..8 (NPN n = 8 in thorough). Kani: every function of n <= 2 (3 thorough).",
+}
